@@ -15,9 +15,11 @@ func init() {
 	register(&Check{
 		ID:  "C03",
 		Run: runC03,
-		Explanation: "Decides two code-shape clauses of 'a successful operation publishes exactly the result': (R1 mode preservation) in each stager that can replace an existing destination (api.openStagedOutputWithOperations, pdfcpu.createStagedFile, cli.createStreamOutput, api.writeCutOutputWith) every success path after the temp file was created either passes a successful Chmod of the temp handle whose mode argument is computed as <stat(destination)>.Mode().Perm() — where the stat is os.Stat (follows symlinks; os.Lstat is rejected) or an operation-table field whose production binding is os.Stat — or runs on the edge where that stat reported the destination absent; the permission bits are therefore set explicitly on the handle (not through the open mode, which the umask filters); (R2 alias rejection) every image-input file operation (NUpFile, GridFile, BookletFile in image mode; ImportImagesFile; UpdateImagesFile) reaches openStagedOutput only after its reject helper succeeded, each reject helper calls outputAliasesInput for every input in its loop and returns a non-nil error on the aliases==true edge, outputAliasesInput compares absolute paths and os.SameFile of os.Stat results (hard links, symlinks, other spellings), and pdfcpu.CopyFile short-circuits on os.SameFile before staging. The remaining clauses follow from C01.R3/C02 (no in-place write, publish by rename, no leftovers). NOT decided: that the published bytes are the complete output (content), OS resolution of links, ownership/ACLs/xattrs.",
+		Explanation: "Decides two code-shape clauses of 'a successful operation publishes exactly the result': (R1 mode preservation) in each stager that can replace an existing destination (api.openStagedOutputWithOperations, pdfcpu.createStagedFile, cli.createStreamOutput, api.writeCutOutputWith) every success path after the temp file was created either passes a successful Chmod of the temp handle whose mode argument is computed as <stat(destination)>.Mode().Perm() — where the stat is os.Stat (follows symlinks; os.Lstat is rejected) or an operation-table field whose production binding is os.Stat — or runs on the edge where that stat reported the destination absent; the permission bits are therefore set explicitly on the handle (not through the open mode, which the umask filters); (R2 alias rejection) every image-input file operation (NUpFile, GridFile, BookletFile in image mode; ImportImagesFile; UpdateImagesFile) reaches openStagedOutput only after its reject helper succeeded, each reject helper calls outputAliasesInput for every input in its loop and returns a non-nil error on the aliases==true edge, outputAliasesInput compares absolute paths and os.SameFile of os.Stat results (hard links, symlinks, other spellings), and pdfcpu.CopyFile short-circuits on os.SameFile before staging. The remaining clauses follow from C01.R3/C02 (no in-place write, publish by rename, no leftovers). (R3 destination identity) at every call of api.openStagedOutput* the destination argument takes only the values \"\" (in place) and names that do not come from an input-path parameter of the calling function (inFile, inFiles[i], inFilePDF): publishing under the input's name leaves the path the caller named with its old content and rewrites the distinct input; (R4) renames over a destination occur only in the mode-preserving publishers of the staging-layer table (closed world of rename primitives and their module wrappers api.replaceFile / fileOperations.replaceFile, same table as C01.R3): a direct rename of another file over an existing destination drops its permission bits. NOT decided: that the published bytes are the complete output (content), OS resolution of links, ownership/ACLs/xattrs.",
 		Rules: []string{
 			"C03.R1 MPT+flow: chmod(temp, stat(destination).Mode().Perm()) on every success path after temp creation when the destination exists",
+			"C03.R3 flow: the stager's destination argument never takes the input path's name",
+			"C03.R4 WMC: renames over a destination only in the mode-preserving publishers (staging-layer table)",
 			"C03.R2 MPT: alias rejection before staging in image-input operations; shape of the reject helpers and of outputAliasesInput",
 		},
 		Assumptions: []string{"os.Stat follows symlinks; (*os.File).Chmod is not filtered by the umask"},
@@ -228,6 +230,112 @@ func runC03(c *Ctx) {
 		checkModePreserved(c, "C03.R1", st)
 	}
 	checkAliasRejection(c, "C03.R2")
+	// R3: the destination handed to the stager is the caller's own output name (or "" for in-place), never the input's name
+	r.MinInst["C03.R3"] = 30
+	checkDestinationIdentity(c, "C03.R3")
+	// R4: renames over a destination happen only in the mode-preserving publishers of the staging-layer table (same table and
+	// closed world as C01.R3, restricted to the rename category): a direct rename of some other file over an existing
+	// destination drops the destination's permission bits.
+	r.MinInst["C03.R4"] = 8
+	runFSWMC(c, "C03.R4", map[string]bool{"rename": true})
+}
+
+// checkDestinationIdentity: at every call of api.openStagedOutput* the destination argument takes only the values "" and
+// names that do not come from an input-path parameter (inFile, inFiles[i], inFilePDF ...) of the calling function.
+func checkDestinationIdentity(c *Ctx, rule string) {
+	p, r := c.P, c.R
+	for _, fn := range p.Funcs {
+		fid := FuncID(fn)
+		if !strings.HasPrefix(fid, "pkg/api.") {
+			continue
+		}
+		fn := fn
+		n := 0
+		eachInstr(fn, func(_ *ssa.BasicBlock, _ int, i ssa.Instruction) {
+			call, ok := i.(*ssa.Call)
+			if !ok {
+				return
+			}
+			_, ref := callRef(call)
+			if ref != "pkg/api.openStagedOutput" && ref != "pkg/api.openStagedOutputWithOperations" {
+				return
+			}
+			if fid == "pkg/api.openStagedOutput" {
+				return // forwarding wrapper
+			}
+			n++
+			construct := fmt.Sprintf("%s#%d destination", ref, n)
+			dst := call.Call.Args[2]
+			var bad []string
+			for _, leaf := range valueLeaves(dst) {
+				if prm := inputPathParam(leaf, 0); prm != nil {
+					bad = append(bad, prm.Name())
+				}
+			}
+			if len(bad) == 0 {
+				r.OK(rule, fid, construct, p.Pos(call.Pos()), "the destination is \"\" (in place) or a name that does not come from an input-path parameter", true)
+			} else {
+				r.Bad(rule, fid, construct, p.Pos(call.Pos()), "the destination handed to the stager can be the input's name ("+strings.Join(bad, ",")+"): the result is published under the input path while the output path the caller named keeps its old content")
+			}
+		})
+	}
+}
+
+// valueLeaves: the non-phi values v can take.
+func valueLeaves(v ssa.Value) []ssa.Value {
+	seen := map[ssa.Value]bool{}
+	var out []ssa.Value
+	var walk func(x ssa.Value)
+	walk = func(x ssa.Value) {
+		if seen[x] {
+			return
+		}
+		seen[x] = true
+		if phi, ok := x.(*ssa.Phi); ok {
+			for _, e := range phi.Edges {
+				walk(e)
+			}
+			return
+		}
+		if ld, ok := x.(*ssa.UnOp); ok && ld.Op == token.MUL {
+			if al, ok := ld.X.(*ssa.Alloc); ok {
+				found := false
+				for _, rf := range *al.Referrers() {
+					if st, ok := rf.(*ssa.Store); ok && st.Addr == ssa.Value(al) {
+						found = true
+						walk(st.Val)
+					}
+				}
+				if found {
+					return
+				}
+			}
+		}
+		out = append(out, x)
+	}
+	walk(v)
+	return out
+}
+
+// inputPathParam: v is (an element of) a string parameter whose name marks it as an input path.
+func inputPathParam(v ssa.Value, d int) *ssa.Parameter {
+	if d > 4 {
+		return nil
+	}
+	switch x := v.(type) {
+	case *ssa.Parameter:
+		n := x.Name()
+		if strings.HasPrefix(n, "inFile") || n == "in" || strings.HasPrefix(n, "inPath") {
+			return x
+		}
+	case *ssa.UnOp:
+		return inputPathParam(x.X, d+1)
+	case *ssa.IndexAddr:
+		return inputPathParam(x.X, d+1)
+	case *ssa.Index:
+		return inputPathParam(x.X, d+1)
+	}
+	return nil
 }
 
 func checkModePreserved(c *Ctx, rule string, st stagerSpec) {
